@@ -364,6 +364,14 @@ class RecDriver(sansio.Driver):
     def __init__(self, *a, **kw):
         super().__init__(*a, **kw)
         self.fed = []
+        self.issued = []  # (step, StartHook) at the moment the layer yields it (the addons run later, when it is scheduled)
+
+    def _command(self, cmd):
+        from mitmproxy.proxy import commands as mcommands
+
+        if isinstance(cmd, mcommands.StartHook):
+            self.issued.append((self.step_no, cmd))
+        super()._command(cmd)
 
     def feed(self, ev):
         self.fed.append((self.step_no, ev))
@@ -625,9 +633,17 @@ def run_dns_case(ctx, opts, loop, proto):
                 S.violate("response-not-delivered-exactly-once", {**witness, "id": qid, "final_rdata": rec["final"], "delivered": len(got), "expected": n_hooks})
     for k in killed_flows.values():
         qid = k["flow"].request.id
-        own = [x["hook_idx"] for x in S.records if x["flow"] is k["flow"]]
-        if own and any(x["qid"] == qid and x["flow"] is not k["flow"] and min(own) < x["hook_idx"] < k["hook_idx"] for x in S.records):
-            ctx.count("kill.stale_flow")  # an answered flow whose id a newer flow took over before the kill: nothing of it is left to forward or end
+        # The layer starts a NEW flow when a client re-uses the id of an answered query. If that had happened before the kill
+        # (the newer flow's first hook had been issued -- its addons may run later), the killed flow is an answered, replaced
+        # one: nothing of it is left to forward or to end, and the id's later traffic belongs to the newer flow.
+        first_issue = {}
+        for step, cmd in d.issued:
+            a = cmd.args()
+            if a and isinstance(a[0], mflow.Flow):
+                first_issue.setdefault(id(a[0]), step)
+        mine = first_issue.get(id(k["flow"]), -1)
+        if any(x["qid"] == qid and x["flow"] is not k["flow"] and mine < first_issue.get(id(x["flow"]), 10**9) < k["step"] for x in S.records):
+            ctx.count("kill.stale_flow")
             continue
         ctx.count("kill.nothing")
         later = []
